@@ -288,3 +288,14 @@ Proof.
   - intros x d H1 H2. rewrite Eb. destruct (Nat.eqb_spec x a), (Nat.eqb_spec x (sav_acc e)); try congruence; lia.
   - intros x d H1. rewrite Ed. destruct (Nat.eqb_spec x a); [congruence|lia].
 Qed.
+
+Lemma sumN_ge2 n f a b : (forall x, 0 <= f x) -> (a < n)%nat -> (b < n)%nat -> a <> b ->
+  f a + f b <= sumN n f.
+Proof.
+  intros H. induction n as [|n IH]; intros Ha Hb Hab; [lia|]. cbn [sumN].
+  destruct (Nat.eq_dec a n) as [->|Han].
+  - pose proof (sumN_ge1 n f b H ltac:(lia)). lia.
+  - destruct (Nat.eq_dec b n) as [->|Hbn].
+    + pose proof (sumN_ge1 n f a H ltac:(lia)). lia.
+    + specialize (IH ltac:(lia) ltac:(lia) Hab). specialize (H n). lia.
+Qed.
